@@ -537,9 +537,21 @@ def run_type_assignment(
     # using the parent's avg_correlation value.
     for cell in result:
         for parent_level, child_level in zip(level_list[:-1], level_list[1:]):
+            if parent_level is None:
+                continue
             if cell[child_level]['avg_correlation'] is None:
                 cell[child_level]['avg_correlation'] = \
                     cell[parent_level]['avg_correlation']
+
+        # Levels at the top of the taxonomy with only one node have no
+        # parent to inherit from; use the nearest level below at which
+        # a choice was actually made (1.0 if no choice was ever made).
+        fill_value = 1.0
+        for level in hierarchy[-1::-1]:
+            if cell[level]['avg_correlation'] is None:
+                cell[level]['avg_correlation'] = fill_value
+            else:
+                fill_value = cell[level]['avg_correlation']
 
     # add aggregate_probability (the product of bootstrapping_probability)
     # across levels in the taxonomy
